@@ -36,7 +36,10 @@ def run(tier, seed, replay=None):
         return res.finish()
     pool = [n for n, _, _, _ in files]
     missing = ["nope.txt", "dir0\\absent.dat", "dir1/file_999.dat"]
-    universe = pool + missing
+    # the same files under another spelling (upper case, forward slashes): the sequential reader finds them through the name hash
+    spelled = {n: n.upper().replace("\\", "/") for n in pool}
+    variants = [spelled[n] for n in pool if spelled[n] != n]
+    universe = pool + missing + variants
     idx = {n: i for i, n in enumerate(universe)}
     # sequential reference for every name of the universe
     seq = C.run_lines(ib, ["par seq %s 0 0 0 0 %s" % (arch, ",".join(C.hexs(n.encode()) for n in universe))], shards=1)[0]
@@ -45,13 +48,16 @@ def run(tier, seed, replay=None):
         h, v = item.split(">")
         ref[bytes.fromhex(h).decode()] = v
     okbits = "".join("0" if ref[n] == "ERR" else "1" for n in universe)
-    if okbits != "1" * len(pool) + "0" * len(missing):
+    if okbits != "1" * len(pool) + "0" * len(missing) + "1" * len(variants):
         res.failing.append(("sequential-read", "sequential read of a built archive failed for a present name (C01 territory)", {"ref": ref}))
 
     def mk_list(L, miss_pos):
         names = [pool[(k * 7 + L) % len(pool)] for k in range(L)]
         if L > 3:
             names[1] = names[0]                      # duplicate
+        for k in range(2, L, 5):                      # every fifth request under another spelling
+            if spelled[names[k]] in variants:
+                names[k] = spelled[names[k]]
         for p in miss_pos:
             if 0 <= p < L:
                 names[p] = missing[p % len(missing)]
